@@ -45,6 +45,9 @@ def build_request(i: int, r: dict) -> bytes:
     bk = r.get("body", "none")
     n = r.get("n", 0)
     data = bytes((i + k) & 0x7F | 0x20 for k in range(n))
+    if r.get("upgrade") and bk != "none":
+        # an upgrade offer on a request with a body (declined by the handler): the body still belongs to this request
+        head += "Upgrade: websocket\r\nConnection: upgrade\r\n"
     if bk == "cl":
         return (head + f"Content-Length: {n}\r\n\r\n").encode() + data
     if bk == "chunked":
@@ -419,8 +422,10 @@ def cases(draw, deep: bool = False, with_bad: bool = False):
             r["k"] = draw(st.integers(0, 1))
         if bk == "none" and i == n - 1 and draw(st.integers(0, 4)) == 0:
             r["close"] = True
-        elif bk == "none" and not deep and draw(st.integers(0, 5)) == 0:
+        elif not deep and not with_bad and draw(st.integers(0, 5)) == 0:
             r["upgrade"] = True
+            if bk != "none":
+                r["n"] = draw(st.sampled_from([1, 5, 70]))
         reqs.append(r)
     case = {"requests": reqs, "cuts": draw(st.one_of(st.just([]), st.lists(st.integers(1, 60), min_size=1, max_size=6), st.just([1])))}
     if with_bad:
